@@ -498,3 +498,39 @@ func ZzC05Change() {
 	check("c05-after-restart")
 	verifrt.Reach("c05-end")
 }
+
+// ZzC05LongPassphrase: a private passphrase of 110 bytes (longer than any
+// hash block or scratch buffer). Both ways Unlock checks a passphrase - from
+// locked (key derivation) and while already unlocked (salted hash kept in
+// memory) - accept the passphrase and refuse a guess that differs from it in
+// one byte, at the beginning, around the 64-, 96- and 128-byte marks of
+// salt||passphrase or at the very end; a refused guess locks the manager.
+func ZzC05LongPassphrase() {
+	pass := make([]byte, 110)
+	for i := range pass {
+		pass[i] = byte('A' + i%26)
+	}
+	w := zzNewMgrWorldPass(zzSeedA, pass)
+	positions := []int{0, 31, 32, 63, 64, 95, 96, 97, 109}
+	pos := positions[verifrt.Choice(len(positions), "differs-at")]
+	mask := verifrt.U8("mask")
+	verifrt.Assume(mask != 0)
+	guess := append([]byte{}, pass...)
+	guess[pos] ^= mask
+	whileUnlocked := verifrt.Choice(2, "guess-while-unlocked") == 1
+	zzMust(w.view(func(ns walletdb.ReadBucket) error {
+		verifrt.Assert(w.mgr.Unlock(ns, pass) == nil && !w.mgr.IsLocked(), "c05-long-passphrase-unlocks")
+		verifrt.Assert(w.mgr.Unlock(ns, pass) == nil && !w.mgr.IsLocked(), "c05-long-passphrase-accepted-while-unlocked")
+		if !whileUnlocked {
+			zzMust(w.mgr.Lock())
+		} else {
+			verifrt.Reach("guess-while-unlocked")
+		}
+		err := w.mgr.Unlock(ns, guess)
+		verifrt.Assert(err != nil && IsError(err, ErrWrongPassphrase), "c05-long-passphrase-one-byte-off-refused")
+		verifrt.Assert(w.mgr.IsLocked(), "c05-refused-guess-leaves-it-locked")
+		verifrt.Assert(w.mgr.Unlock(ns, pass) == nil, "c05-long-passphrase-unlocks-again")
+		return nil
+	}))
+	verifrt.Reach("c05-end")
+}
